@@ -26,6 +26,7 @@ type c15Case struct {
 const c15Port = "6379"
 
 type c15World struct {
+	tlsOnly bool   // the plain port is disabled
 	inCall  string // the lifecycle call the harness thread is inside ("" between calls)
 	tls     bool
 	kit     *tlsKit
@@ -60,6 +61,9 @@ func (w *c15World) body() {
 	w.double = srv.NewDouble()
 	w.srv = srv.NewServer(w.double)
 	w.srv.SetPort(6379)
+	if w.tlsOnly {
+		w.srv.SetPort(0)
+	}
 	if w.tls {
 		kit, err := getKit()
 		if err != nil {
@@ -252,7 +256,7 @@ func (w *c15World) atQuiet(e *vrt.Exec) {
 				accepting = true
 			}
 		}
-		if !accepting {
+		if !accepting && !w.tlsOnly {
 			w.fail("no-accept-loop-while-running", "Start/Restart returned nil but no goroutine is accepting on port "+c15Port)
 		}
 		if w.tls {
@@ -273,7 +277,8 @@ func c15Explorer(prog string, bound int) (*sched.Explorer, *[]*c15World) {
 	var worlds []*c15World
 	x := &sched.Explorer{Bound: bound}
 	x.New = func() *sched.Run {
-		w := &c15World{prog: prog, tls: strings.ContainsAny(prog, "qjQ")}
+		// a leading X: the plain port is disabled (TLS-only server)
+		w := &c15World{prog: strings.TrimPrefix(prog, "X"), tls: strings.ContainsAny(prog, "qjQ"), tlsOnly: strings.HasPrefix(prog, "X")}
 		worlds = append(worlds[:0], w)
 		return &sched.Run{
 			Body:    w.body,
@@ -362,7 +367,13 @@ func c15Run(c *fw.Ctx) {
 		}
 		return true
 	}
-	if !phase("p1_plain_calls3_bound2", c15Programs(3, true), 2) || !phase("p1_tls_calls2_bound1", c15TLSPrograms(2), 1) {
+	var tlsOnly []string
+	for _, p := range c15TLSPrograms(2) {
+		if !strings.ContainsAny(p, "piP") {
+			tlsOnly = append(tlsOnly, "X"+p)
+		}
+	}
+	if !phase("p1_plain_calls3_bound2", c15Programs(3, true), 2) || !phase("p1_tls_calls2_bound1", c15TLSPrograms(2), 1) || !phase("p1_tlsonly_calls2_bound1", tlsOnly, 1) {
 		return
 	}
 	if !c.Thorough() {
@@ -483,7 +494,7 @@ func init() {
 	fw.Register(&fw.Prop{
 		ID:    "C15",
 		Level: "model_checking",
-		Rule:  "lifecycle programs: every sequence over {Start, Stop, Restart} of up to 3 calls (thorough: also 4) beginning with Start - including Stop on a stopped and Start on a running server - decorated between calls with {nothing, a client that connects, PINGs and disconnects, a client that PINGs and stays idle}, each also with a trailing client action, plus the variants in which a client thread dials and PINGs concurrently with a Stop/Restart; every schedule of the real Start/Stop/Restart, accept loops and connection goroutines within deviation bound 2 over an in-memory port namespace (bind conflicts, backlog, close); the same programs with the TLS port enabled and clients doing the real crypto/tls handshake (<= 2 calls, bound 1). Thorough runs further phases in this order, each complete only when its <phase>_done counter equals <phase>_programs: plain <= 3 calls at bound 3; TLS 3 calls at bound 2; TLS <= 2 calls at bound 3; plain 4 calls at bound 2 (caps name the phase the deadline interrupted). Oracle: after Start/Restart returned nil every dial is accepted and PING answered; after Stop returned and quiescence the port can be bound, every client connection is closed, no server goroutine is alive, the registry is empty; while running the registry holds exactly the served connections and an accept loop is parked in Accept. A program is non-trivial when its schedules produce more than one distinct terminal observation.",
+		Rule:  "lifecycle programs: every sequence over {Start, Stop, Restart} of up to 3 calls (thorough: also 4) beginning with Start - including Stop on a stopped and Start on a running server - decorated between calls with {nothing, a client that connects, PINGs and disconnects, a client that PINGs and stays idle}, each also with a trailing client action, plus the variants in which a client thread dials and PINGs concurrently with a Stop/Restart; every schedule of the real Start/Stop/Restart, accept loops and connection goroutines within deviation bound 2 over an in-memory port namespace (bind conflicts, backlog, close); the same programs with the TLS port enabled and clients doing the real crypto/tls handshake (<= 2 calls, bound 1), and once more on a TLS-only server (plain port disabled). Thorough runs further phases in this order, each complete only when its <phase>_done counter equals <phase>_programs: plain <= 3 calls at bound 3; TLS 3 calls at bound 2; TLS <= 2 calls at bound 3; plain 4 calls at bound 2 (caps name the phase the deadline interrupted). Oracle: after Start/Restart returned nil every dial is accepted and PING answered; after Stop returned and quiescence the port can be bound, every client connection is closed, no server goroutine is alive, the registry is empty; while running the registry holds exactly the served connections and an accept loop is parked in Accept. A program is non-trivial when its schedules produce more than one distinct terminal observation.",
 		Assumptions: []string{
 			"sequentially consistent interleavings; scheduling points at go, mutex, sync.Map, listener and connection operations (plus racy-set accesses)",
 			"programs with TLS clients (real handshake, valid certificate) use up to 2 calls at deviation bound 1 in quick (3 calls, bound 2 in thorough)",
